@@ -8,16 +8,19 @@ GH = 'abacusnbody/hod/GRAND_HOD.py'
 SPECS = {
     'C01': [(CHC, [C + '_compute_new_subsample_indices', C + '_load_subsamples', C + '_unpack_rv_subsamples',
                    C + '_unpack_pid_subsamples', C + '_update_subsample_index_cols', C + '_load_halo_lc_subsamples',
-                   C + '_setup_load_subsamples'])],
+                   C + '_setup_load_subsamples', C + '_read_halo_info', C + '_setup_file_paths', C + '_setup_fields'])],
+    # (the last three feed the subsample loader its per-file halo counts, file lists and index columns)
     'C02': [(CHC, [C + '_setup_fields', C + '_get_halo_fields_dependencies', C + '_load_halo_field', C + '_read_halo_info',
                    C + '_setup_load_subsamples'])],
     'C03': [(CHC, [C + '_read_halo_info', C + '_setup_file_paths', C + '_load_subsamples',
-                   C + '_compute_new_subsample_indices'])],
+                   C + '_compute_new_subsample_indices', C + '_setup_fields'])],
     'C04': [('abacusnbody/data/bitpacked.py', ['unpack_rvint', '_unpack_rvint', 'unpack_pids', '_unpack_pids',
-                                               'empty_bitpacked_arrays'])],
+                                               'empty_bitpacked_arrays']),
+            ('abacusnbody/data/read_abacus.py', ['read_asdf'])],       # the caller that chooses box / ppd / dtype for the decoders
     'C06': [(TSC, ['_tsc_scatter', '_rightwrap', '_wrap_inplace', 'tsc_parallel', '_tsc_parallel', 'partition_parallel']),
             ('abacusnbody/analysis/cic.py', ['cic_serial', 'rightwrap']), (PS, ['get_field'])],
     'C07': [(TSC, ['tsc_parallel', '_tsc_parallel', 'partition_parallel'])],
+    'C08': [(PS, ['calc_pk_from_deltak', 'get_raw_power', 'project_3d_to_poles', 'pk_to_xi'])],    # the public callers of the binning kernels
     'C09': [(GH, ['gen_gals', 'wrap', 'gen_gal_cat'])],
     'C10': [(GH, ['fast_concatenate', 'gen_gals']), ('abacusnbody/hod/abacus_hod.py', ['_searchsorted_parallel'])],
     'C12': [('abacusnbody/hod/abacus_hod.py', ['_searchsorted_parallel'])],
